@@ -373,11 +373,28 @@ def r6(repo, run):
     run.ok('C12.R6', fi, 'unchanged-code shortcut taken only when neither this code object nor a nested one was patched')
 
 
+def _family(repo, fi):
+    """the function and the private helpers of its module that are reachable only from it (code moved out of it)"""
+    out = [fi]
+    for g in list(fi.module.functions.values()) + [m for c in fi.module.classes.values() for m in c.methods.values()] if hasattr(fi.module, 'classes') else list(fi.module.functions.values()):
+        if g is not fi and only_reached_from(repo, g.qualname, {fi.qualname}):
+            out.append(g)
+    return out
+
+
+class _Multi(ast.AST):
+    _fields = ('body',)
+
+
 def r7r8(repo, run):
     fi = repo.func('EvalNode._patch_access_to_globals')
-    inserts = any(isinstance(x, ast.Subscript) and norm(x.value) == 'dis.opmap' for x in ast.walk(fi.node))
+    fam = _family(repo, fi)
+    whole = _Multi()
+    whole.body = [f.node for f in fam]
+    inserts = any(isinstance(x, ast.Subscript) and norm(x.value) == 'dis.opmap' for x in ast.walk(whole))
     n = 0
-    for c in calls_in(fi.node):
+    fi_node_all = whole
+    for c in [c for f in fam for c in calls_in(f.node)]:
         if norm(c.func) == 'types.CodeType' or (isinstance(c.func, ast.Attribute) and c.func.attr == 'replace' and any(k.arg == 'co_code' for k in c.keywords)):
             n += 1
             verbatim = [a for a in list(c.args) + [k.value for k in c.keywords] if isinstance(a, ast.Attribute) and a.attr == 'co_exceptiontable']
@@ -388,12 +405,12 @@ def r7r8(repo, run):
                 run.ok('C12.R7', (fi.file, c.lineno, fi.qualname), 'exception table is not passed verbatim', 'recomputed or no instruction inserted')
     if n == 0:
         raise AnalysisError('_patch_access_to_globals: construction of the new code object not found')
-    src = norm(fi.node)
+    src = ' '.join(norm(f.node) for f in fam)
     # single-byte operand accesses, whatever the variables are called: <x>.co_code[<i> + 1] reads and <operand>.to_bytes(1, ...) writes
     # whose receiver is not an opcode number
-    single_read = [x for x in ast.walk(fi.node) if isinstance(x, ast.Subscript) and norm(x.value).endswith('.co_code') and isinstance(x.slice, ast.BinOp) and isinstance(x.slice.op, ast.Add)
+    single_read = [x for x in ast.walk(whole) if isinstance(x, ast.Subscript) and norm(x.value).endswith('.co_code') and isinstance(x.slice, ast.BinOp) and isinstance(x.slice.op, ast.Add)
                    and isinstance(x.slice.right, ast.Constant) and x.slice.right.value == 1]
-    single_write = [c for c in calls_in(fi.node) if isinstance(c.func, ast.Attribute) and c.func.attr == 'to_bytes' and c.args and norm(c.args[0]) == '1'
+    single_write = [c for c in [c for f in fam for c in calls_in(f.node)] if isinstance(c.func, ast.Attribute) and c.func.attr == 'to_bytes' and c.args and norm(c.args[0]) == '1'
                     and not (isinstance(c.func.value, ast.Subscript) and norm(c.func.value.value) == 'dis.opmap') and not isinstance(c.func.value, ast.Constant)]
     handles_ext = 'EXTENDED_ARG' in src
     if (single_read or single_write) and not handles_ext:
